@@ -85,6 +85,14 @@ impl<'a> Driver<'a> {
             }
             *e -= o.value.0;
         }
+        // legacy signature covenants read signature slot 0 wherever they are spent: spend them first so that the slots of
+        // new-style covenants (slot = input position) do not collide with them
+        let mut inputs: Vec<(CoinID, CoinDataHeight)> = inputs.to_vec();
+        inputs.sort_by_key(|(_, d)| match self.wal.reg.get(&d.coin_data.covhash) {
+            Some((_, CovKind::Legacy(_))) => 0,
+            _ => 1,
+        });
+        let inputs = &inputs[..];
         let input_data: Vec<Option<CoinData>> = inputs.iter().map(|(_, d)| Some(d.coin_data.clone())).collect();
         let change_addrs: Vec<Address> = (0..nchange.max(1)).map(|_| self.wal.random_address(&mut self.r)).collect();
         let mut fee = 0u128;
